@@ -140,18 +140,34 @@ def checked (n : Int) : Out Value :=
 
 def boolV (b : Bool) : Value := .data (if b then "True" else "False") [] []
 
+def litOf : Value → Option Lit
+  | .lit l => some l
+  | _ => none
+
+/-- Two integer arguments. -/
+def intArgs : List Value → Option (Int × Int)
+  | [a, b] =>
+    match litOf a, litOf b with
+    | some (.int x), some (.int y) => some (x, y)
+    | _, _ => none
+  | _ => none
+
+def intOp (op : String) (a b : Int) : Out Value :=
+  if op = "#Int+" then checked (a + b)
+  else if op = "#Int-" then checked (a - b)
+  else if op = "#Int*" then checked (a * b)
+  else if op = "#Int/" then (if b = 0 then .arith else checked (Int.tdiv a b))
+  else if op = "#Int<" then .ok (boolV (decide (a < b)))
+  else if op = "#Int==" then .ok (boolV (decide (a = b)))
+  else .wrong
+
 /-- The builtin operators the reference evaluator knows (vm/src/thread.rs `AddInt` … via
     vm/src/compiler.rs primitive table): checked 64-bit integer arithmetic and comparisons.
     Every builtin is a function of its arguments: no log, and `arith` is its only failure. -/
 def builtin (op : String) (args : List Value) : Out Value :=
-  match op, args with
-  | "#Int+", [.lit (.int a), .lit (.int b)] => checked (a + b)
-  | "#Int-", [.lit (.int a), .lit (.int b)] => checked (a - b)
-  | "#Int*", [.lit (.int a), .lit (.int b)] => checked (a * b)
-  | "#Int/", [.lit (.int a), .lit (.int b)] => if b = 0 then .arith else checked (Int.tdiv a b)
-  | "#Int<", [.lit (.int a), .lit (.int b)] => .ok (boolV (decide (a < b)))
-  | "#Int==", [.lit (.int a), .lit (.int b)] => .ok (boolV (decide (a = b)))
-  | _, _ => .wrong
+  match intArgs args with
+  | some (a, b) => intOp op a b
+  | none => .wrong
 
 def findIdx (rows : List String) (f : String) : Option Nat :=
   match rows with
@@ -228,10 +244,15 @@ def findClosure : Closures → String → Option (List String × Expr)
 /-- The two host functions of the examples: `vlog x` records the call and returns `x`;
     `error msg` records nothing and fails. -/
 def hostCall (name : String) (args : List Value) : R Value :=
-  match name, args with
-  | "vlog", [v] => ⟨.ok v, [("vlog", [v])]⟩
-  | "error", [.lit (.str m)] => ⟨.user m, []⟩
-  | _, _ => ⟨.wrong, []⟩
+  match args with
+  | [v] =>
+    if name = "vlog" then ⟨.ok v, [("vlog", [v])]⟩
+    else if name = "error" then
+      match litOf v with
+      | some (.str m) => ⟨.user m, []⟩
+      | _ => ⟨.wrong, []⟩
+    else ⟨.wrong, []⟩
+  | _ => ⟨.wrong, []⟩
 
 /-- A concrete `Caller`: closures, partial applications and the host functions above, with a
     budget of nested closure calls. -/
